@@ -99,6 +99,7 @@ func loadEngine(repo, specDir string) (*Engine, error) {
 				old.Clauses = append(old.Clauses, fc.Clauses...)
 				old.Pure = old.Pure || fc.Pure
 				old.NoHavoc = old.NoHavoc || fc.NoHavoc
+				old.PreservesArgs = old.PreservesArgs || fc.PreservesArgs
 				old.Inline = old.Inline || fc.Inline
 				continue
 			}
